@@ -45,11 +45,11 @@ V2='{"a", "b"}'; V3='{"a", "b", "c"}'; V4='{"a", "b", "c", "d"}'; V6='{"a", "b",
 B='{0, 1}'
 mks SatLayer_quick_wide SSpec "$V2" "$ALLF" 2 2 2 "$B" '{2, 3}' raw 2 "$B" 1 2 2 "$ALLOPS" 1 1 TRUE
 mks SatLayer_quick_amo  SSpec "$V6" '{"amo"}' 0 0 6 "$B" '{2, 3, 4}' raw 0 "$B" 0 0 0 '{">="}' 1 1 TRUE
-mks SatLayer_quick_seq  SSpec "$V3" '{"amo", "pb"}' 0 0 3 "$B" '{}' ordered 3 '{1}' 0 1 3 '{">="}' 2 2 TRUE
+mks SatLayer_quick_seq  SSpec "$V3" '{"amo", "pb"}' 0 0 3 "$B" '{}' ordered 3 '{1}' 0 1 3 '{">=", ">"}' 2 2 TRUE
 mks SatLayer_thorough_wide SSpec "$V3" "$ALLF" 2 2 3 "$B" '{2, 3}' raw 2 "$B" 1 3 3 "$ALLOPS" 1 1 TRUE
 mks SatLayer_thorough_amo  SSpec "$V7" '{"amo"}' 0 2 7 "$B" '{2, 3, 4, 5}' raw 0 "$B" 0 0 0 '{">="}' 1 1 TRUE
 mks SatLayer_thorough_amo2 SSpec "$V7" '{"amo"}' 0 0 7 '{1}' '{3, 4}' raw 0 "$B" 0 0 0 '{">="}' 2 2 TRUE
-mks SatLayer_thorough_seq  SSpec "$V3" '{"clause", "amo", "pb"}' 1 0 3 "$B" '{3}' ordered 3 '{1}' 0 2 3 '{">="}' 2 2 TRUE
+mks SatLayer_thorough_seq  SSpec "$V3" '{"clause", "amo", "pb"}' 1 0 3 "$B" '{3}' ordered 3 '{1}' 0 2 3 '{">=", ">"}' 2 2 TRUE
 mks SatLayer_thorough_seq3 SSpec "$V3" '{"pb"}' 0 0 0 "$B" '{}' ordered 3 '{1}' 0 1 2 '{">="}' 3 3 TRUE
 # propagation strength (thorough only): one constraint, every partial assignment probed with unit propagation
 V5='{"a", "b", "c", "d", "e"}'
